@@ -566,6 +566,10 @@ func hasViol(pool *Pool, job *fwproto.Job, inv, sig string) bool {
 		cpu = 120
 	}
 	r := pool.RunIsolated(&j, cpu)
+	if os.Getenv("DDPSIM_DEBUG") != "" {
+		b, _ := json.MarshalIndent(r, "", " ")
+		fmt.Fprintln(os.Stderr, string(b))
+	}
 	for _, v := range resultViols(&r) {
 		if v.Inv == inv && v.Sig == sig {
 			return true
